@@ -490,6 +490,11 @@ def _merge_operations_impl(
     merged_circuit = _MergedCircuit()
     for moment_idx, current_moment in enumerate(circuit):
         merged_circuit.append_empty_moment()
+        keyed_ops = [
+            (o, protocols.control_keys(o), protocols.measurement_key_objs(o))
+            for o in current_moment.operations
+        ]
+        keyed_ops = [(o, ckeys, mkeys) for o, ckeys, mkeys in keyed_ops if ckeys or mkeys]
         for op in sorted(current_moment.operations, key=lambda op: op.qubits):
             if (
                 deep
@@ -540,6 +545,11 @@ def _merge_operations_impl(
                         merged_circuit.ckey_indexes[k][-1] <= left_c.moment_id for k in left_c.mkeys
                     ) and all(
                         merged_circuit.mkey_indexes[k][-1] <= left_c.moment_id for k in left_c.ckeys
+                    )
+                    # Nor into a moment whose other operations share its measurement keys.
+                    keys_free = keys_free and all(
+                        o is op or (ck.isdisjoint(left_c.mkeys) and mk.isdisjoint(left_c.ckeys))
+                        for o, ck, mk in keyed_ops
                     )
                     if keys_free and c_qs.issuperset(left_c.qubits):
                         # Make a shallow copy of the left component data before merge
